@@ -63,7 +63,29 @@ func windowSums(log []ev, now, n, r int64) (lower, upper int64) {
 	return
 }
 
+// genMarch: a long march, one increment per slot for thousands of slots, with reads on the way: whatever the relation
+// between the resolution and the calendar units (seconds, milliseconds), every slot is a slot of its own
+func genMarch(rng *rand.Rand) hlib.History {
+	var h hlib.History
+	n := int64(2 + rng.Intn(4))
+	r := hlib.Pick(rng, 1000500000, 1000500000, 1000000001, 1100000000, 1000999999, 2500000001)
+	start := int64(1e18) + rng.Int63n(int64(4.6e18))
+	h.Cfg = []int64{n, r, start}
+	steps := 2300 + rng.Intn(400)
+	for i := 0; i < steps; i++ {
+		h.Ops = append(h.Ops, []int64{0, 1 + int64(i%3)}, []int64{2, r})
+		if i%7 == 0 {
+			h.Ops = append(h.Ops, []int64{1})
+		}
+	}
+	hlib.Count("long_marches", 1)
+	return h
+}
+
 func (c *counterComp) Gen(rng *rand.Rand, idx int, tier string, targeted bool) hlib.History {
+	if !targeted && rng.Intn(50) == 0 {
+		return genMarch(rng)
+	}
 	var h hlib.History
 	n := int64(1 + rng.Intn(12))
 	r := resolutions[rng.Intn(len(resolutions))]
